@@ -199,3 +199,100 @@ def map_script(rnd, uidpool, peers=(1000, 1001, 1002, 0, 4242), nreq=8):
             if p == 0: continue
             metas[len(cmds)] = {'what': 'other'}; cmds.append('H\t%d\tGET /u/%d/%s HTTP/1.1' % (p, q, rnd.choice(['sched', 'queue'])))
     return cmds, metas
+
+
+# ------------------------------------------------------------------ C06: crash / fault enumeration around checkpoints
+def run_in_spool(drv, spool, cmds, metas):
+    try:
+        p = subprocess.run([drv, spool], input='\n'.join(cmds) + '\n', capture_output=True, text=True, timeout=120)
+        rc = p.returncode; out = p.stdout
+    except subprocess.TimeoutExpired:
+        rc = -99; out = ''
+    ev = []
+    for l in out.split('\n'):
+        if not l: continue
+        try: ev.append(json.loads(l))
+        except Exception: ev.append({'e': 'Garbled'})
+    ai = sorted(i for i in metas if isinstance(metas[i], list)); k = 0
+    for e in ev:
+        if e['e'] == 'Req' and k < len(ai):
+            e['items'] = metas[ai[k]]; k += 1
+            e['replies'] = [[m.group(1), int(m.group(2))] for m in REPLY_RE.finditer(e.get('reply', ''))]
+            e.pop('reply', None)
+        elif e['e'] == 'Http':
+            e.pop('reply', None)
+        elif e['e'] == 'Sys':
+            m = re.search(r'echsq_(\d+)\.ics', e.get('arg', ''))
+            e['owner'] = int(m.group(1)) if m else -1
+        elif e['e'] == 'State':
+            e['tasks'] = [[t['uid'], t['owner']] for t in e['tasks']]
+            for kk in ('pending', 'children', 'dirty', 'now'): e.pop(kk, None)
+    return ev, rc
+
+
+def file_facts(spool):
+    out = []
+    for fn in sorted(os.listdir(spool)):
+        if not (fn.startswith('echsq_') or fn.startswith('.echsq_')): continue
+        b = open(os.path.join(spool, fn), 'rb').read().decode('latin1')
+        m = re.search(r'echsq_(\d+)\.ics$', fn)
+        out.append({'name': fn, 'user': int(m.group(1)) if m else -1, 'dot': fn.startswith('.'), 'size': len(b),
+                    'nbeginvcal': b.count('BEGIN:VCALENDAR'), 'nendvcal': b.count('END:VCALENDAR'),
+                    'nbeginvev': b.count('BEGIN:VEVENT'), 'nendvev': b.count('END:VEVENT'),
+                    'endsright': b.endswith('END:VCALENDAR\n'), 'uids': sorted(re.findall(r'^UID:([^\n\r]*)', b, re.M))})
+    return out
+
+
+def chk_experiment(drv, wd, cmds, metas, k=None, mode=None):
+    """run a history with a fault armed at the k-th checkpoint system call, then restart on the same spool"""
+    spool = tempfile.mkdtemp(prefix='ck', dir=wd)
+    pre = ['ST\t1'] + (['F\t%d\t%s' % (k, mode)] if k else [])
+    m2 = {i + len(pre): v for i, v in metas.items()}
+    ev, rc = run_in_spool(drv, spool, pre + cmds, m2)
+    files = file_facts(spool)
+    ev2, rc2 = run_in_spool(drv, spool, ['L', 'Q'], {})
+    armed = []
+    for e in ev2:
+        if e['e'] == 'State': armed = e['tasks']
+    # second life: the restarted daemon goes on working on the same spool (stale dot files included):
+    # it cancels some of what it loaded, shuts down cleanly, and is restarted once more
+    rnd2 = random.Random(len(cmds) * 1000 + (k or 0))
+    victims = rnd2.sample(armed, min(len(armed), rnd2.choice([1, 2, 3]))) if armed else []
+    c3, m3 = ['ST\t1', 'L'], {}
+    for uid, owner in victims:
+        it = {'kind': 'cancel', 'uid': uid, 'peer': owner}
+        m3[len(c3)] = [it]; c3.append('A\t%d\t%s' % (owner, rrgen.esc(request([it], 'CANCEL'))))
+    c3.append('S')
+    ev3, rc3 = run_in_spool(drv, spool, c3, m3)
+    files3 = file_facts(spool)
+    ev4, rc4 = run_in_spool(drv, spool, ['L', 'Q'], {})
+    armed3 = []
+    for e in ev4:
+        if e['e'] == 'State': armed3 = e['tasks']
+    shutil.rmtree(spool, ignore_errors=True)
+    return {'e': 'CkRun', 'k': k or 0, 'mode': mode or 'none', 'rc': rc, 'rc2': rc2, 'ev': ev, 'files': files, 'armed': armed,
+            'rc3': rc3 or rc4, 'ev3': ev3, 'files3': files3, 'armed3': armed3}
+
+
+def chk_history(rnd, users=(1000, 1001), uids=('a', 'b', 'c', 'd'), nreq=5, fat=False):
+    cmds, metas = [], {}
+    FAR = 5000
+    def req():
+        p = rnd.choice(users)
+        if rnd.random() < 0.7:
+            items = []
+            for _ in range(rnd.choice([1, 1, 2, 3])):
+                it = {'kind': 'add', 'uid': rnd.choice(uids), 'occ': sorted(set(FAR + rnd.randint(0, 50) for _ in range(rnd.randint(1, 3)))), 'maxsim': 0, 'peer': p}
+                if fat: it['extra'] = ['DESCRIPTION:' + 'x' * rnd.choice([200, 900, 1000])] * 1 + ['ATTENDEE:mailto:%s@example.com' % ('y' * 60)] * rnd.randint(0, 5)
+                items.append(it)
+            metas[len(cmds)] = items; cmds.append('A\t%d\t%s' % (p, rrgen.esc(request(items))))
+        else:
+            items = [{'kind': 'cancel', 'uid': rnd.choice(uids), 'peer': p}]
+            metas[len(cmds)] = items; cmds.append('A\t%d\t%s' % (p, rrgen.esc(request(items, 'CANCEL'))))
+    for _ in range(nreq): req()
+    cmds.append('K')
+    for _ in range(rnd.randint(0, 3)): req()
+    if rnd.random() < 0.5: cmds.append('K')
+    for _ in range(rnd.randint(0, 2)): req()
+    cmds.append('S')
+    return cmds, metas
